@@ -79,7 +79,7 @@ def run(tier):
     ck = core.Check("C13", tier)
     quick = tier == "quick"
     rng = ck.rng
-    cfgs = ["2-all", "3-linear", "4-cycle"] if quick else ["2-all", "3-linear", "4-cycle", "5-T", "6-H"]
+    cfgs = ["2-all", "3-linear", "4-cycle"] if quick else ["2-all", "3-linear", "4-cycle", "5-T"]
     apis = list(history.APIS) + ([] if quick else list(history.LOOKUP_APIS))
     # pristine references from three fresh interpreters
     refs = pristine(apis, cfgs)
@@ -106,7 +106,7 @@ def run(tier):
     shares = al["ok"]
     ck.cov["alias_facts_extracted"] = {a: s for a, s in shares.items() if s}
     files = {"MC_CacheAlias.tla": mc_module(apis, shares)}
-    maxheld, maxlen = (3, 7) if quick else (3, 9)
+    maxheld, maxlen = (3, 7) if quick else (3, 8)
     # (a) model checking Pure under the extracted facts
     inv = ["PureOrReport"]
     files["MC_CacheAlias.tla"] = files["MC_CacheAlias.tla"].replace("=============================================================================",
@@ -126,7 +126,7 @@ def run(tier):
     tlc.require_ok(res, "CacheAlias dump")
     trans = [x for x in res.json_lines() if x.get("k") == "T"]
     ck.add_tlc(f"CacheAlias(state graph, MaxHeld={maxheld}, MaxLen={maxlen})", res, note=f"{len(trans)} labelled transitions")
-    cap = 4000 if quick else 60000
+    cap = 4000 if quick else 25000
     if len(trans) > cap:
         # every (source view, action) is kept at least once: transitions are unique per BFS state, so sample uniformly beyond the cap
         keep = sorted(rng.sample(range(len(trans)), cap))
@@ -135,7 +135,7 @@ def run(tier):
     for t in trans:
         histories.append((t["hist"], {len(t["hist"]) - 1: t}, "transition"))
     # (c) long random walks
-    nwalk, wlen = (150, 30) if quick else (1500, 50)
+    nwalk, wlen = (150, 30) if quick else (800, 40)
     resw = tlc.run_tlc("MC_CacheAlias", mc_cfg(apis, cfgs, maxheld, wlen, invariants=["EmitWalk"], view=False), files=files, workers=1,
                        simulate=f"num={nwalk}", depth=wlen + 1, seed=ck.seed + 5, heap="2g")
     tlc.require_ok(resw, "CacheAlias simulate")
